@@ -10,7 +10,9 @@ META = {
             "deferred exit, reader hand-off, any number of callers with never-cancelled / cancellable contexts, "
             "closeAll), whose select arms are read off /repo on every run: once serveDone is closed every caller "
             "and the reader are enabled in every state, each returns (and closeAll closes the front connection) "
-            "within 4 own steps under any scheduling of the others; serve's exit leaves no pending call "
+            "within 4 own steps under any scheduling of the others, hence -- under weak fairness -- in every "
+            "infinite schedule; the loss of the connection leads to serveDone in 3 serve steps nobody can disable; "
+            "serve's exit leaves no pending call "
             "uncompleted and no queued call lost; Accept/Close/sendAccept/mailbox selects have a guard arm; the "
             "pinned tree's shape is kept as a refuted counter-model (a closeAll thread and the reader provably "
             "stuck for ever). Fault scenarios (loss while idle / mid-call / after a failed write / during "
